@@ -24,7 +24,7 @@ func workerMergeByIndex(r *Run, fn string) {
 	info := f.Info()
 	var spawn *ast.ForStmt
 	var gostmt *ast.GoStmt
-	ast.Inspect(f.Body(), func(x ast.Node) bool {
+	core.InspectBody(f, func(x ast.Node) bool {
 		fs, ok := x.(*ast.ForStmt)
 		if !ok || spawn != nil {
 			return true
@@ -114,7 +114,7 @@ func workerMergeByIndex(r *Run, fn string) {
 		return "?"
 	}
 	merged, sameBound := false, false
-	ast.Inspect(f.Body(), func(x ast.Node) bool {
+	core.InspectBody(f, func(x ast.Node) bool {
 		fs, ok := x.(*ast.ForStmt)
 		if !ok || fs == spawn || fs.Cond == nil {
 			return true
@@ -224,7 +224,7 @@ func init() {
 					}
 					c := f.Ctx()
 					ok := false
-					ast.Inspect(f.Body(), func(n ast.Node) bool {
+					core.InspectBody(f, func(n ast.Node) bool {
 						rs, isR := n.(*ast.RangeStmt)
 						if !isR || !core.IsObj("param:0")(c, rs.X) || len(rs.Body.List) != 1 {
 							return true
